@@ -149,6 +149,20 @@ def _r1(ctx):
             if reads[-2:] == ["opaque", "options"]:
                 reads = reads[:-2] + ["options"]
             dec_by_variant.setdefault(var, []).append((tval.get(v, str(v)), reads))
+    # every RDATA value the decoder builds is built inside an arm of the type switch: the variant is chosen by the record type and
+    # by nothing else (the encoder's per-variant code, its type assertions included, relies on that pairing)
+    in_arm = set()
+    for blocks in arms.values():
+        in_arm |= set(blocks)
+    for b2, i2, st in db.stmts():
+        if "rv" in st and st["rv"]["k"] == "agg" and st["rv"].get("adt", "").endswith("dnspkt::RData"):
+            var = st["rv"]["variant"]
+            ok_here = b2 in in_arm
+            if var == "Other":
+                ok_here = b2 in arms.get("other", set())
+            ctx.check(ok_here, "R1", "rdata:%s:built-only-in-its-type-arm" % var, ctx.where(db, st["sp"]),
+                      "RData::%s is built outside the arm of the record-type switch that selects it: a record of another type (an SOA with "
+                      "RDLENGTH 0, say) then carries this variant and the encoder's per-variant code no longer matches its type" % var)
     # ---- encoder arms
     esw = None
     for bb, tm in eb.terms():
